@@ -56,6 +56,19 @@ func (f *frame) baseEnv(st *State) *exprEnv {
 			} else if c, isC := vs[0].(*ssa.Const); isC {
 				env.vars[name] = cval{term: f.constTerm(c), typ: c.Type()}
 			}
+		} else if len(vs) > 1 {
+			// a variable assigned on several paths: its final join (the phi in the latest block) stands for the name
+			var best *ssa.Phi
+			for _, x := range vs {
+				if p, ok := x.(*ssa.Phi); ok {
+					if v, has := f.vals[p]; has && v.term != "" && (best == nil || p.Block().Index > best.Block().Index) {
+						best = p
+					}
+				}
+			}
+			if best != nil {
+				env.vars[name] = cval{term: f.vals[best].term, typ: best.Type()}
+			}
 		}
 	}
 	for name, a := range f.allocs {
@@ -697,7 +710,7 @@ func (e *exprEnv) call(n *ast.CallExpr) (cval, error) {
 				return cval{term: fmt.Sprintf("(forall ((%s Int)) %s)", q(qv), withPatterns(fmt.Sprintf("(=> %s %s)", rng, body.term), pats)), typ: boolT}, nil
 			}
 			return cval{term: fmt.Sprintf("(exists ((%s Int)) %s)", q(qv), withPatterns(fmt.Sprintf("(and %s %s)", rng, body.term), pats)), typ: boolT}, nil
-		case "allref", "exref", "allint", "exint", "allstr", "exstr":
+		case "allref", "exref", "allint", "exint", "allstr", "exstr", "allof", "exof":
 			bv, ok := n.Args[0].(*ast.Ident)
 			if !ok {
 				return cval{}, fmt.Errorf("%s: binder must be an identifier", name)
@@ -706,6 +719,14 @@ func (e *exprEnv) call(n *ast.CallExpr) (cval, error) {
 			var bodyX ast.Expr
 			sortQ := "Int"
 			switch name {
+			case "allof", "exof":
+				T, err := e.resolveType(n.Args[1])
+				if err != nil {
+					return cval{}, err
+				}
+				tp = T
+				sortQ = B.sortOf(T)
+				bodyX = n.Args[2]
 			case "allref", "exref":
 				T, err := e.resolveType(n.Args[1])
 				if err != nil {
@@ -735,9 +756,24 @@ func (e *exprEnv) call(n *ast.CallExpr) (cval, error) {
 			body.term = quantBody(facts, body.term, strings.HasPrefix(name, "ex"))
 			pats := selectPatterns(body.term, q(qv))
 			if strings.HasPrefix(name, "all") {
+				// directly nested universal quantifiers are merged into one binder list (patterns may then mention all variables)
+				if strings.HasPrefix(body.term, "(forall (") {
+					return cval{term: fmt.Sprintf("(forall ((%s %s) %s", q(qv), sortQ, body.term[len("(forall ("):]), typ: boolT}, nil
+				}
 				return cval{term: fmt.Sprintf("(forall ((%s %s)) %s)", q(qv), sortQ, withPatterns(body.term, pats)), typ: boolT}, nil
 			}
 			return cval{term: fmt.Sprintf("(exists ((%s %s)) %s)", q(qv), sortQ, withPatterns(body.term, pats)), typ: boolT}, nil
+		case "trigger":
+			// trigger(t, P): P with the explicit E-matching pattern t (used in axioms)
+			tv, err := e.expr(n.Args[0])
+			if err != nil {
+				return cval{}, err
+			}
+			pv, err := e.expr(n.Args[1])
+			if err != nil {
+				return cval{}, err
+			}
+			return cval{term: fmt.Sprintf("(! %s :pattern (%s))", pv.term, tv.term), typ: boolT}, nil
 		case "ntrace":
 			return cval{term: e.st.ntrace, typ: intT}, nil
 		case "emitted":
@@ -976,9 +1012,37 @@ func (e *exprEnv) call(n *ast.CallExpr) (cval, error) {
 				return cval{term: term, sort: "Event"}, err
 			}
 		}
-		// spec function
+		// spec function (uninterpreted); argument / result sorts may be given as Go types
 		if sf, ok := t.DB.Specs[name]; ok {
-			fn := B.declFun("spec:"+name, sf.Args, sf.Res)
+			basic := map[string]bool{"Int": true, "Bool": true, "Str": true, "Iface": true, "Slice": true, "Event": true, "Flt": true}
+			var resT types.Type
+			toSort := func(raw string) (string, types.Type, error) {
+				if basic[raw] {
+					return raw, sortType(raw), nil
+				}
+				tx, err := parser.ParseExpr(raw)
+				if err != nil {
+					return "", nil, fmt.Errorf("spec %s: bad sort %q", name, raw)
+				}
+				tp, err := e.resolveType(tx)
+				if err != nil {
+					return "", nil, fmt.Errorf("spec %s: %v", name, err)
+				}
+				return B.sortOf(tp), tp, nil
+			}
+			var argSorts []string
+			for _, a := range sf.Args {
+				srt, _, err := toSort(a)
+				if err != nil {
+					return cval{}, err
+				}
+				argSorts = append(argSorts, srt)
+			}
+			resSort, resT, err := toSort(sf.Res)
+			if err != nil {
+				return cval{}, err
+			}
+			fn := B.declFun("spec:"+name, argSorts, resSort)
 			var as []string
 			for _, a := range n.Args {
 				v, err := e.expr(a)
@@ -990,7 +1054,7 @@ func (e *exprEnv) call(n *ast.CallExpr) (cval, error) {
 			if len(as) != len(sf.Args) {
 				return cval{}, fmt.Errorf("spec %s: arity", name)
 			}
-			return cval{term: "(" + fn + " " + strings.Join(as, " ") + ")", typ: sortType(sf.Res), sort: sf.Res}, nil
+			return cval{term: "(" + fn + " " + strings.Join(as, " ") + ")", typ: resT, sort: resSort}, nil
 		}
 		// predicate (macro)
 		if pd, ok := t.DB.Preds[name]; ok {
@@ -1487,7 +1551,7 @@ func selectPatterns(body, qv string) []string {
 }
 
 func withPatterns(body string, pats []string) string {
-	if len(pats) == 0 {
+	if len(pats) == 0 || strings.HasPrefix(body, "(! ") {
 		return body
 	}
 	var sb strings.Builder
